@@ -130,7 +130,9 @@ def run_tlc(
 
     meta = workdir / f"meta_{name}"
     shutil.rmtree(meta, ignore_errors=True)
-    cmd = ["java", "-XX:+UseParallelGC", f"-Xmx{heap}", f"-DTLA-Library={SPECS}:{SPECS / 'lib'}"]
+    jtmp = workdir / "jtmp"
+    jtmp.mkdir(exist_ok=True)  # keep TLC's temporary directories out of /tmp
+    cmd = ["java", "-XX:+UseParallelGC", f"-Xmx{heap}", f"-Djava.io.tmpdir={jtmp}", f"-DTLA-Library={SPECS}:{SPECS / 'lib'}"]
     if dfs_queue:
         cmd.append("-Dtlc2.tool.queue.IStateQueue=StateDeque")
     cmd += ["-cp", JAR, "tlc2.TLC", "-metadir", str(meta), "-noGenerateSpecTE"]
